@@ -135,11 +135,16 @@ type Art struct {
 	ByTag   bool   `json:"by_tag"`  // pushed to tag "art<i>" instead of by digest
 	Child   bool   `json:"child"`   // digest push with WithManifestChild (as regctl artifact put does)
 	// dimensions added by the generator-domain audit (zero values = the original behaviour)
-	Shared         bool `json:"shared,omitempty"`          // with ByTag: pushed to the tag "shared" that other artifacts use too
-	Sha512         bool `json:"sha512,omitempty"`          // the manifest object is built under sha512 (pushed by digest)
-	OtherAlg       bool `json:"other_alg,omitempty"`       // pushed to a digest reference of the OTHER algorithm over the same bytes (sha256 object -> @sha512:..., sha512 object -> @sha256:...): the reference's digest is what the manifest is stored under
-	PartialSubject bool `json:"partial_subject,omitempty"` // subject descriptor carries only the digest
-	NoMediaType    bool `json:"no_media_type,omitempty"`   // image kind: body without the optional mediaType field
+	Shared bool `json:"shared,omitempty"` // with ByTag: pushed to the tag "shared" that other artifacts use too
+	Sha512 bool `json:"sha512,omitempty"` // the manifest object is built under sha512 (pushed by digest)
+	// Obj: how the manifest OBJECT handed to ManifestPut is obtained: "" built from the raw body | "desc" built with
+	// manifest.WithDesc from a descriptor that carries annotations (ref.name and another key) and a foreign
+	// artifactType, as an annotated index entry would | "get-tag" / "get-digest" read with ManifestGet (by tag / by
+	// digest) from a source layout in which the artifact is tagged (its index entry carries ref.name and another key)
+	Obj            string `json:"obj,omitempty"`
+	OtherAlg       bool   `json:"other_alg,omitempty"`       // pushed to a digest reference of the OTHER algorithm over the same bytes (sha256 object -> @sha512:..., sha512 object -> @sha256:...): the reference's digest is what the manifest is stored under
+	PartialSubject bool   `json:"partial_subject,omitempty"` // subject descriptor carries only the digest
+	NoMediaType    bool   `json:"no_media_type,omitempty"`   // image kind: body without the optional mediaType field
 }
 
 // resolved artifact
